@@ -32,6 +32,8 @@ pub struct MonState {
     pub fail_at: Mutex<Vec<usize>>,
     /// fail every write from this index on
     pub fail_from: Mutex<Option<usize>>,
+    /// fail every write whose key ends with this suffix ("" = every write)
+    pub fail_suffix: Mutex<Option<String>>,
     pub nwrites: Mutex<usize>,
     pub snap: Mutex<bool>,
     pub snaps: Mutex<Vec<(usize, String, Files)>>,
@@ -87,7 +89,8 @@ impl Adapter for MonAdapter {
         let existed = existing.is_some();
         let same = existing.as_ref().map(|e| e.as_slice() == d).unwrap_or(true);
         let inject = self.st.fail_at.lock().unwrap().contains(&idx)
-            || self.st.fail_from.lock().unwrap().map(|f| idx >= f).unwrap_or(false);
+            || self.st.fail_from.lock().unwrap().map(|f| idx >= f).unwrap_or(false)
+            || self.st.fail_suffix.lock().unwrap().as_ref().map(|sfx| k.ends_with(sfx.as_str())).unwrap_or(false);
         if *self.st.snap.lock().unwrap() {
             let files = dump_adapter(self.inner.as_ref());
             self.st.snaps.lock().unwrap().push((idx, k.to_string(), files));
